@@ -668,6 +668,8 @@ def check_symbol_tables(run, cov):
 EXTRA_UN = ["exp", "log", "asin", "acos", "sinh", "cosh", "tanh", "asinh", "acosh", "atanh", "floor", "ceil", "fabs",
             "sign", "erf", "log1p", "expm1", "erfinv"]
 EXTRA_BIN = ["atan2", "hypot", "copysign", "constpow"]
+NUMERIC_CONDITION_CASES = {"if_else_numeric_condition", "if_else_symbol_condition", "if_else_zero_numeric_condition", "logic_not_of_number",
+                           "logic_and_of_numbers", "logic_or_of_numbers"}
 
 
 def check_extras(run, cov, culprit_c2s, culprit_s2c=frozenset()):
@@ -681,6 +683,10 @@ def check_extras(run, cov, culprit_c2s, culprit_s2c=frozenset()):
     cases += [("sign_of_difference", 3 + y * ca.sign(x - y)), ("sign_of_product", ca.sign(x * y) + ca.cos(x)), ("fabs_of_difference", ca.fabs(x - y)),
               ("fmin", ca.fmin(x, y)), ("fmax", ca.fmax(x, y)), ("le", x <= y), ("ge_as_le", y <= x), ("eq", ca.eq(x, y)), ("ne", ca.ne(x, y)),
               ("if_else", ca.if_else(x <= y, x + 1, y - 1))]
+    # conditions that are NUMBERS, not comparisons (C: any non-zero value is true, negative ones included)
+    cases += [("if_else_numeric_condition", ca.if_else(x * y - 1, x + 1, y)), ("if_else_symbol_condition", ca.if_else(x, y, 2 * y)),
+              ("if_else_zero_numeric_condition", ca.if_else(x + y, x, 0)), ("logic_not_of_number", ca.if_else(ca.logic_not(x + y), x, y)),
+              ("logic_and_of_numbers", ca.logic_and(x, y)), ("logic_or_of_numbers", ca.logic_or(x + 2.5, y))]
     cases += [("logic_not", ca.logic_not(x < y)), ("logic_and", ca.logic_and(x < y, y < 1)), ("logic_or", ca.logic_or(x < y, y < 1)), ("twice", 2 * x), ("pow_noninteger_const", x ** 2.5),
               ("pow_symbolic", ca.fabs(x) ** y), ("if_else_zero", ca.if_else(x < y, x, 0))]
     for name, e in cases:
@@ -704,6 +710,10 @@ def check_extras(run, cov, culprit_c2s, culprit_s2c=frozenset()):
                 err = None
             except Exception as ex:
                 g, err = None, f"{type(ex).__name__}: {ex}"
+            if err is not None and name in NUMERIC_CONDITION_CASES:
+                # a number used as a truth value: sympy refuses to evaluate it (TypeError) -- the construct is rejected, not altered
+                run.spec_drift(f"casadi_to_sympy/extra:{name}/refused_at_evaluation", "a numeric condition is refused when the converted expression is evaluated (allowed: it raises)")
+                break
             if not close(g, ref):
                 run.violation(f"casadi_to_sympy/{ca_opname(e)}/value", f"{name}: converted expression evaluates to a different value",
                               {"extra": name, "x": xv, "y": yv, "expected": ref, "got": g, "error": err, "sympy": str(s)})
